@@ -378,6 +378,10 @@ def build(seed, tier, focus='all'):
                  attrs_field="plain", magic_ident=True, rename_all="camelCase")
     root([field("name", V), field("rest", ty("recv", flat_inner), flatten=True)], trait="FromDeriveInput",
          attr_names=["x"], max_items=3, max_attrs=2)
+    # a flatten member that itself holds a nested receiver: a name rejected inside `sub(..)` is not the flatten member's
+    # business even when the same list also holds a name it rejects directly
+    nest_holder = c.struct([field("sub", ty("recv", leaf), default="trait"), field("gamma", O)])
+    root([field("alpha", V, default="trait"), field("rest", ty("recv", nest_holder), flatten=True)], max_items=2)
     # a forward list that leaves `doc` out: doc comments are attributes like any other
     root([field("max_volume", V, default="trait")], trait="FromField", attr_names=["x"], forward="only", forward_names=["keep"], attrs_field="plain", max_items=1, max_attrs=3)
     root([], trait="FromTypeParam", attr_names=["x"], forward="only", forward_names=["tool::x", "keep"], attrs_field="plain", magic_ident=True, max_items=1, max_attrs=3)
@@ -489,7 +493,7 @@ def build(seed, tier, focus='all'):
             if focus == "suggest":
                 al_s = suggest_alphabet(c, d, rng)
                 d["alpha"] = al_s[: (80 if d.pop("deep_chain", False) or tier != "quick" else 30)]
-                d["max_items"] = 2 if len(d["alpha"]) <= 20 else 1
+                d["max_items"] = 2 if len(d["alpha"]) <= 24 else 1
                 d["max_attrs"] = 1
                 continue
             if focus == "clean":
